@@ -126,7 +126,7 @@ def is_refusal(res):
 
 # ---- generators ------------------------------------------------------------------------------
 
-def gen_race_history(w, rng, tier, regime=None):
+def gen_race_history(w, rng, tier, regime=None, restarts=True, ties=True):
     """setup, then rounds of concurrent actions on one epoch, per-client shuffled delivery with
     duplication, then quiescence rounds"""
     n = rng.choice([2, 3, 3, 4, 5] if tier == "quick" else [2, 3, 4, 5, 6])
@@ -156,7 +156,7 @@ def gen_race_history(w, rng, tier, regime=None):
         k = rng.choice([1, 1, 2, 2, 3])
         committers = rng.sample(range(n), min(k, n))
         base = ts + 10
-        stamps = [base + rng.choice([0, 0, 1, 2, -1]) for _ in committers]
+        stamps = [base + rng.choice([0, 0, 1, 2, -1]) for _ in committers] if ties else rng.sample(range(base - 2, base + 4), len(committers))
         for c, st in zip(committers, stamps):
             if c in admins and rng.random() < 0.4:
                 tok += 1
@@ -197,7 +197,9 @@ def gen_race_history(w, rng, tier, regime=None):
         if rng.random() < 0.25:
             sqls = [c for c in range(n) if backends[c] == "sql"]
             if sqls:
-                w.do(f"restart {rng.choice(sqls)}")
+                victim = rng.choice(sqls)
+                if restarts:
+                    w.do(f"restart {victim}")
     quiesce(w)
     return w
 
@@ -242,9 +244,12 @@ def mip03_winner_chain(w):
 def oracle_world(w):
     """returns (failures, facts).  failures carry a mechanism signature."""
     fails = []
+    SHARED = {"rollback-before-authorisation": ["C01", "C05", "C06"], "refused-after-rollback": ["C06", "C01"],
+              "hydrated-timestamp-zero": ["C01", "C11"], "handshake-before-predecessor-blocked": ["C01", "C02"],
+              "record-not-synced": ["C08", "C06"]}
     def fail(prop, sig, step, what):
-        fails.append({"kind": "oracle", "prop": prop, "signature": sig, "what": f"world {w.id} step {step}: {what}",
-                      "replay_body": w.text(step, what)})
+        fails.append({"kind": "oracle", "prop": prop, "props": sorted(set([prop] + SHARED.get(sig, []))), "signature": sig,
+                      "what": f"world {w.id} step {step}: {what}", "replay_body": w.text(step, what)})
     commits = {n: e for n, e in w.events.items() if e["kind"] == "commit"}
     # ---- per-step predicates (C06 refuse-frame, C07 redelivery, C08 sync) ----
     seen_effect = {}     # (client, event) -> True once a delivery of it was handled with effect
@@ -284,7 +289,9 @@ def oracle_world(w):
         views = {(f["epoch"], f["token"], f["members"], f["admins"], f["name"], f["desc"], f["nid"], f["relays"]) for f in live.values()}
         if len(views) > 1:
             sig = classify_divergence(w, live)
-            fail("C01", sig, len(w.trace) - 1, f"after quiescence the remaining members hold {len(views)} different states: " +
+            facts["divergence"] = sig
+            if sig != "fork-deeper-than-retention":
+                fail("C01", sig, len(w.trace) - 1, f"after quiescence the remaining members hold {len(views)} different states: " +
                  "; ".join(f"c{c}:E{f['epoch']}/T{f['token']}" for c, f in sorted(live.items())))
         else:
             # the common state must be the MIP-03 selection
@@ -459,3 +466,51 @@ def correspondence(worlds):
                               "what": f"world {w.id} step {idx} `{cmd}`: {diff}", "replay_body": w.text(idx, "model and implementation disagree: " + diff)})
                 failed = True
     return fails, compared
+
+
+def gen_restart_pair(wid, seed_rng, tier):
+    """the same script twice, with and without restarts (C11); no timestamp ties so that the outcome
+    does not depend on the (random) event ids"""
+    r = seed_rng.random()
+    pair = []
+    for restarts in (False, True):
+        w = World(f"{wid}{'r' if restarts else 'n'}")
+        try:
+            gen_race_history(w, random.Random(r), tier, regime=None, restarts=restarts, ties=False)
+        except RuntimeError as e:
+            w.crashed = str(e)
+        finally:
+            w.close()
+        pair.append(w)
+    return pair
+
+def final_view(w):
+    """what an application can observe at the end, without run-specific tokens"""
+    v = {}
+    for c in range(w.n_clients):
+        f = w.fps.get(c)
+        if f is None:
+            v[c] = None
+        else:
+            v[c] = (f["epoch"], f["members"], f["admins"], f["name"], f["state"], tuple(sorted((m["tok"], m["state"]) for m in f["msgs"])))
+    return v
+
+def oracle_c11(pairs):
+    fails = []
+    stats = {"pairs": 0, "pairs_with_restart": 0, "equal": 0}
+    for a, b in pairs:
+        if getattr(a, "crashed", None) or getattr(b, "crashed", None):
+            continue
+        stats["pairs"] += 1
+        nrest = sum(1 for cmd, res, _ in b.trace if cmd.startswith("restart") and res == "ok")
+        if nrest:
+            stats["pairs_with_restart"] += 1
+        va, vb = final_view(a), final_view(b)
+        if va == vb:
+            stats["equal"] += 1
+        else:
+            diffc = [c for c in va if va[c] != vb.get(c)]
+            what = f"world {b.id}: the run with {nrest} restart(s) ends differently from the same run without: clients {diffc}: without={[va[c] for c in diffc][:2]} with={[vb[c] for c in diffc][:2]}"
+            fails.append({"kind": "oracle", "prop": "C11", "props": ["C11", "C01"], "signature": "hydrated-timestamp-zero" if nrest else "nondeterministic-outcome",
+                          "what": what[:900], "replay_body": b.text(None, what[:300]) + "# --- the same script without restarts ---\n" + a.text()})
+    return fails, stats
